@@ -63,6 +63,17 @@ Theorem block_signature_only_for_the_proposal_and_only_while_no_own_commit_is_he
 Proof. exact (signature_only_for_the_proposal_while_uncommitted cfg st ev sc st' tr s h). Qed.
 Print Assumptions block_signature_only_for_the_proposal_and_only_while_no_own_commit_is_held.
 
+(* the same for the anti-MEV pre-commit: its data is requested only for the hash of the node's pre-header, the proposal of its
+   view, and only while the node holds no PreCommit of its own *)
+Theorem precommit_data_only_for_the_proposal_and_only_while_no_own_precommit_is_held cfg st ev sc st' tr s h :
+  Reach cfg st -> step cfg st ev sc = Ok (st', tr) -> In (s, CSetData h) tr ->
+  (exists pb r, preheader s = Some pb /\ h = preblock_hash pb /\ slot (PreparationPayloads s) (PrimaryIndex s) = Some r /\
+                p_body r = B0 (BPrepareRequest (pb_ts pb) (pb_nonce pb) (pb_hashes pb)) /\
+                p_view r = ViewNumber s /\ pb_index pb = BlockIndex s /\ pb_prev pb = PrevHash s) /\
+  slot (PreCommitPayloads s) (MyIndex s) = None.
+Proof. exact (precommit_data_only_for_the_proposal_while_no_own_precommit cfg st ev sc st' tr s h). Qed.
+Print Assumptions precommit_data_only_for_the_proposal_and_only_while_no_own_precommit_is_held.
+
 (* Histories of one epoch.  Epoch st g: st was reached from a reachable state by Start or Reset followed by any calls other than
    Start/Reset; g is the sequence of callbacks made since that initialisation, each with the node state at its instant.
    nsign g counts the block-signature requests in g; signed_commit g is the Commit built at the first of them.
